@@ -291,7 +291,39 @@ def params():
         obs = _probe([2, [0, 1, 0], [0, 2, 7]], "standalone_close_propagates_busy")
         close_busy = obs[1][0][1] == 4
         notes.append(f"standalone_close_propagates_busy: behavioural (unknown shape {key3}): serve held in set-up, close -> {obs[1][0]}")
-    serve_first, closed_under_lock, close_first = _tr_lock_order()
+    # lock order of the standalone wrapper: AST + three witness scenarios on the REAL server (pause gates of the driver):
+    #  [14,16] serve_forever held before its 2nd lock acquisition: is_serving() (bootstrap lock) parked <-> it took LBoot first
+    #  [15,16] server_close held before its 2nd lock acquisition: likewise for server_close
+    #  [13,2,16] serve_forever held before its 1st acquisition, server_close completes, release: ServerClosedError <-> the
+    #            closed test is made after the close lock has been taken
+    def lock_witnesses():
+        o1 = _probe([2, [0, 0, 0], [14, 16]], "serve_first_lock")
+        o2 = _probe([2, [0, 0, 0], [15, 16]], "close_first_lock")
+        o3 = _probe([2, [0, 0, 0], [13, 2, 16]], "serve_closed_check_under_lock")
+        return ("LBoot" if o1[0][1] == 2 else "LClose", o3[-1][0][0] == 3, "LBoot" if o2[0][1] == 2 else "LClose"), (o1, o2, o3)
+
+    try:
+        serve_first, closed_under_lock, close_first = _tr_lock_order()
+    except TranslateError as exc:
+        (serve_first, closed_under_lock, close_first), obs = lock_witnesses()
+        notes.append(f"serve_first_lock / serve_closed_check_under_lock / close_first_lock: behavioural ({exc}): {obs}")
+    else:
+        got, obs = lock_witnesses()
+        if got != (serve_first, closed_under_lock, close_first):
+            raise TranslateError("_base.py BaseStandaloneNetworkServerImpl: the source reads as lock order "
+                                 f"{(serve_first, closed_under_lock, close_first)}, the witness scenarios on the real server "
+                                 f"give {got}: {obs}")
+    # the parameters read from known shapes must agree with their witness scenario on the real code as well
+    for name, value, case, read in (
+            ("udp_restart_guarded", udp_guarded, [1, [0, 0, 0], [0, 9, 1]], lambda o: o[-1][0][0] == 1),
+            ("standalone_shutdown_guarded", shutdown_guarded, [2, [0, 0, 0], [10, 0, 11]], lambda o: o[-1][0][0] == 1),
+            ("nst_sets_up_in_finally", nst, [2, [0, 1, 0], [12, 1]], lambda o: o[-1][0][0] == 1),
+            ("standalone_close_propagates_busy", close_busy, [2, [0, 1, 0], [0, 2, 7]], lambda o: o[1][0][1] == 4)):
+        if any(n.startswith(name + ":") for n in notes):
+            continue                      # already behavioural
+        o = _probe(case, name)
+        if read(o) != value:
+            raise TranslateError(f"{name}: the source reads as {value}, the witness scenario {case} on the real code gives {o}")
 
     def b(x):
         return "true" if x else "false"
